@@ -34,7 +34,10 @@ REQUIRED = {
         Frustum_radiusExc_tight Frustum_screenRadiusExc_never Frustum_worldRadiusExc_never
         Frustum_setFovExc_ok Frustum_setFovExc_error""".split(),
     "ImathVerif.Props.C07GJ": ["M33_gjInverseT_unexc", "M33_gjInverseT_kind", "M33_gjInverseT_ok", "M33_gjInverseT_error", "M33_gjInverseF_eq",
-                               "M33_gjInvert_eq"],
+                               "M33_gjInvert_eq",
+                               # the extracted trees ARE the C06 hand model at n = 3 (Lemmas/C07GJLink.lean, 1,312 leaves): both directions
+                               "M33_gjInverseT_eq_model", "M33_gjInverse0_eq_model", "M33_gjInverseT_error_iff", "M33_gjInverseT_ok_mul",
+                               "M33_gjInverse_failure", "M33_gjInverse_failure_copies", "M33_gjInverseT_never"],
     "ImathVerif.Props.C07Algo": """
         Algo_checkForZeroScaleInRow2_pair Algo_checkForZeroScaleInRow3_pair Algo_checkForZeroScaleInRow2 Algo_checkForZeroScaleInRow3
         Algo_checkForZeroScaleInRow2F_false_iff Algo_checkForZeroScaleInRow3F_false_iff Algo_checkForZeroScaleInRow3_never
